@@ -28,7 +28,7 @@ PREREQ = {
 INIT_NEEDS = {"neutron": {"mass", "density"}, "activation": {"mass"}}
 
 MUTATE_GROUP = {
-    "_mass": "mass", "_abundance": "mass", "add_isotope": "mass",
+    "_mass": "mass", "_abundance": "mass", "add_isotope": "mass", "_mass_unc": "mass", "_abundance_unc": "mass",
     "_density": "density", "density_caveat": "density",
     "covalent_radius": "covalent_radius", "covalent_radius_uncertainty": "covalent_radius",
     "K_alpha": "emission", "K_beta1": "emission",
